@@ -277,8 +277,9 @@ def evaluate_expression(expr, options=None, locals_=None, builtins=True):
         right_value = evaluate_expression(expr['binary']['right'], options, locals_, builtins)
         try:
             return _evaluate_binary_operator(bin_op, left_value, right_value)
-        except (ArithmeticError, ValueError, RecursionError, MemoryError):
-            # Host arithmetic failure (division by zero, overflow, out-of-range datetime, circular value, out of memory)
+        except (ArithmeticError, ValueError, RecursionError, MemoryError, TypeError):
+            # Host arithmetic failure (division by zero, overflow, out-of-range datetime, circular value, out of memory,
+            # host object with non-string keys)
             return None
 
     # Unary expression
